@@ -290,7 +290,10 @@ class Ctx:
         ev = {"property_id": self.prop, "tier": self.tier, "seed": self.seed, "level": self.level,
               "coverage": cov, "assumptions": self.assumptions, "wall_s": round(wall, 1),
               "violations": len(seen)}
-        with open(os.path.join(ROOT, "evidence", self.prop + ".json"), "w") as f:
+        # X.. = specification growth beyond the listed properties (DESIGN.md section 4): not in MANIFEST.checks
+        evdir = os.path.join(ROOT, "evidence" if self.prop.startswith("C") else "evidence_extra")
+        os.makedirs(evdir, exist_ok=True)
+        with open(os.path.join(evdir, self.prop + ".json"), "w") as f:
             json.dump(ev, f, indent=1, default=str)
         shutil.rmtree(self.tmp, ignore_errors=True)
         print("%s %s tier=%s seed=%d states=%d transitions=%d impl-cases=%d nontrivial=%d wall=%.0fs"
